@@ -269,6 +269,41 @@ def build(E):
         skeep = spec.keep
         spec.targets = ptargets + spec.targets
 
+        # between the proxy and _get_single stands GeminiClient.get(url, follow_redirects=False): it must hand exactly the URL it
+        # was given to exactly one _get_single call - whatever this (long-lived) client object has fetched before
+        def gs_log(ctx, old, a, outcome):
+            ctx.ghost.setdefault("single_calls", []).append(a[1])
+            if outcome[0] == "return":
+                ctx.ghost["single_result"] = outcome[1]
+            return None
+        E.caller_contracts[f"{CL}._get_single"] = Contract(f"{CL}._get_single", ensures=[("ghost log", gs_log)], result=resp_t,
+                                                           raises=["TimeoutError", "ConnectionError", "CertificateChangedError", "Exception*"])
+
+        def cg_args(ctx):
+            E._client_activate()
+            cl, _ = E._mk_client(ctx)
+            ctx.ghost.pop("single_calls", None)
+            ctx.ghost.pop("single_result", None)
+            return [cl, VStr(z3.String("url"))], {"follow_redirects": VBool(False)}
+
+        def cg_post(ctx, old, a, outcome):
+            calls = ctx.ghost.get("single_calls", [])
+            if len(calls) > 1:
+                return z3.BoolVal(False)
+            if not calls:
+                return z3.BoolVal(outcome[0] == "raise")       # refused before any connection (validate_url)
+            u = ctx.force(calls[0])
+            same_url = u.z == z3.String("url") if isinstance(u, VStr) else z3.BoolVal(False)
+            if outcome[0] == "return":
+                got = ctx.ghost.get("single_result")
+                r = outcome[1]
+                return z3.And(same_url, z3.BoolVal(got is not None and isinstance(r, VObj) and getattr(got, "oid", None) == r.oid))
+            return same_url
+        c_get = Contract(f"{CL}.get", make_args=cg_args, ensures=[
+            ("[C17] get(url, follow_redirects=False) fetches exactly the URL it was given, once, and returns that response - independent of anything this client object fetched earlier", cg_post)])
+        spec.event_contracts[f"{CL}.get"] = c_get
+        spec.targets.append((f"{CL}.get", None))
+
         def keep(name, _s=skeep):
             if name.startswith(PX):
                 return "[C18]" not in name
